@@ -268,6 +268,8 @@ def run(ctx):
     # ---- C11.g what a cassette hands out is decoded afresh from what it stores: no live object is kept and handed out (shared with C07)
     _ci.import_clauses(ctx, res, 'C07', ['C07.c', 'C07.e'], 'C11', 'C11.g', 'R-PROV',
                        'cassettes store encoded text / rebuild fetched recordings from decoded parts: fetched values share nothing with the store', floor=5)
+    from . import common as _r7
+    _r7.import_clauses(ctx, res, 'C17', ['C17.e'], 'C11', 'C11.h', 'R-AGREE', 'the copy-on-interception option is the one registered for the operation class object', floor=2)
     return res
 
 
